@@ -188,13 +188,20 @@ func (p *oracleProc) call(req any, rep any) error {
 	return json.Unmarshal(line, rep)
 }
 
+// infraFatal ends the shard with a status the driver reads as infrastructure
+// trouble (exit 2): a dead oracle says nothing about the repository, and a
+// panic inside a judge would be recorded as a violation.
+func infraFatal(msg string) {
+	fmt.Fprintln(os.Stderr, "C11 INFRASTRUCTURE: "+msg)
+	os.Exit(3)
+}
+
 // mustOracle is used inside judges: the process was checked at start, so a
-// failure here is a dead worker (infrastructure), reported by a panic that is
-// not a statement about the repository.
+// failure here is a dead worker.
 func mustOracle() *oracleProc {
 	p, err := oracle()
 	if err != nil {
-		panic("schema oracle unavailable: " + err.Error())
+		infraFatal("schema oracle unavailable: " + err.Error())
 	}
 	return p
 }
@@ -204,7 +211,7 @@ func mustOracle() *oracleProc {
 func validateAgainst(schemaID string, instance json.RawMessage) ([]SchemaError, error) {
 	var rep validateReply
 	if err := mustOracle().call(map[string]any{"op": "validate", "schema_id": schemaID, "instance": instance}, &rep); err != nil {
-		panic("schema oracle died: " + err.Error())
+		infraFatal("schema oracle died: " + err.Error())
 	}
 	if !rep.OK {
 		return nil, fmt.Errorf("%s", rep.Error)
@@ -220,10 +227,10 @@ var (
 func schemaReports() map[string]fileReport {
 	checkOnce.Do(func() {
 		if err := mustOracle().call(map[string]any{"op": "check_schemas"}, &checkRep); err != nil {
-			panic("schema oracle died: " + err.Error())
+			infraFatal("schema oracle died: " + err.Error())
 		}
 		if !checkRep.OK {
-			panic("schema oracle: check_schemas: " + checkRep.Error)
+			infraFatal("schema oracle: check_schemas: " + checkRep.Error)
 		}
 	})
 	m := map[string]fileReport{}
